@@ -1183,7 +1183,7 @@ emittype(struct type *t)
 	}
 	fputs("type ", stdout);
 	emitname(t->value);
-	if (t == targ->typevalist) {
+	if (t == targ->typevalist || t == targ->typevalist->base) {
 		printf(" = align %d { %llu }\n", t->align, t->size);
 		return;
 	}
